@@ -3,7 +3,8 @@
 (* L3 trace spec for C13 (and the geometric clauses of C18/C19 reuse it).  *)
 (* A trace is one call of a boolean path operation of the real code:       *)
 (*   [op |-> "union" | "intersection" | "difference" | "remove_overlaps",   *)
-(*    opnds |-> Seq([kind |-> "poly", polys |-> contours in user units,      *)
+(*    opnds |-> Seq([kind |-> "poly", polys |-> contours in user units        *)
+(*                   (kind "fine": flattened curves in 1/64 units),            *)
 (*                   rule] | [kind |-> "ellipse", g |-> <<cx,cy,rx,ry>>]),   *)
 (*    r |-> [k |-> "ok", polys |-> result contours in 1/64 units, bb]        *)
 (*        | [k |-> "exc", t]]                                                 *)
@@ -18,7 +19,9 @@ EXTENDS SvgSem, Json, IOUtils, TLC
 Cases == ndJsonDeserialize(IOEnv.TRACES)
 VARIABLES blk, tid, verdict
 
+(* kind "fine": a curved operand, given by its flattening in 1/64 units (like the result) *)
 InOpnd(o, p) == IF o.kind = "ellipse" THEN EllipseIn(<<p[1], p[2], 8>>, o.g[1], o.g[2], o.g[3], o.g[4])
+                ELSE IF o.kind = "fine" THEN ByRule(WindAll(o.polys, <<8 * p[1], 8 * p[2], 1>>, 1, 0), o.rule)
                 ELSE ByRule(WindAll(o.polys, <<p[1], p[2], 8>>, 1, 0), o.rule)
 
 Expected(op, os, p) ==
